@@ -175,6 +175,8 @@ func (c *Ctx) ringSpaceAccounting() {
 	}
 	c.R.Count("consumer-cursor stores (space accounting)", cnt["cset"])
 	c.R.Floor("consumer-cursor stores (space accounting)", cnt["cset"], 2)
+	c.R.Count("waits of the ring (wait only when it must)", cnt["mustwait"])
+	c.R.Floor("waits of the ring (wait only when it must)", cnt["mustwait"], 2)
 	c.R.Count("consumer calls reporting a byte count (advance == count)", cnt["advance"])
 	c.R.Floor("consumer calls reporting a byte count (advance == count)", cnt["advance"], 2)
 	c.R.Count("producer-cursor stores (space accounting)", cnt["pset"])
@@ -488,6 +490,87 @@ func (sp *spaceRules) probe(p *bounds.Probe) {
 			key := fmt.Sprintf("%s:store(pseq)#%d:commits-exactly-the-reservation", fn.Name(), k)
 			sp.record(key, "pset", pos, "the stored position is start + count of a reservation made on this path", fn.Name()+" can store a producer position that is not start + count of a space reservation made on that path: bytes are committed that were not reserved (unread data is overwritten) or written bytes are skipped", okr, "in context "+p.Ctx+": stored value is not provably start + count of a reservation")
 		}
+		return
+	}
+	// (7) a side waits only while the other side's cursor says it must: at the Wait, the producer has start + count -
+	// size > C for a read C of the consumer's cursor; the consumer has P <= c (no data), or P < c + n for the count
+	// n it was asked for. A wait at the exact boundary (just enough room / data) never ends when the other side
+	// has nothing more to do.
+	if call, ok := p.Instr.(*ssa.Call); ok && ir.IsMethod(call.Common(), "sync", "Cond", "Wait") && recvNamed(fn) == "buffer" && len(call.Common().Args) > 0 {
+		cp := ir.PathOf(call.Common().Args[0])
+		cond := ""
+		if n := len(cp.Fields); n > 0 {
+			cond = cp.Fields[n-1]
+		}
+		// the count asked for: an int parameter of the frame that waits or of one above it
+		var counts []bounds.Lin
+		for i := 0; i < p.Frames(); i++ {
+			f := p.Fn(i)
+			for j, prm := range f.Params {
+				if j == 0 {
+					continue
+				}
+				if bt, isB := prm.Type().Underlying().(*types.Basic); isB && bt.Kind() == types.Int {
+					if av, okv := p.Val(i, prm); okv && av.Kind == bounds.KInt {
+						counts = append(counts, av.Int)
+					}
+				}
+			}
+		}
+		good := false
+		switch cond {
+		case "pcond":
+			// the ring's size as the nearest frame has loaded it
+			var size *bounds.Lin
+			for i := 0; i < p.Frames() && size == nil; i++ {
+				f := p.Fn(i)
+				if len(f.Params) == 0 {
+					continue
+				}
+				for _, b := range f.Blocks {
+					for _, in := range b.Instrs {
+						if u, ok := in.(*ssa.UnOp); ok && u.Op == token.MUL && size == nil {
+							pp := ir.PathOf(u.X)
+							if len(pp.Fields) == 1 && pp.Fields[0] == "size" && pp.Root == ssa.Value(f.Params[0]) {
+								if av, ok := p.Val(i, u); ok && av.Kind == bounds.KInt {
+									l := av.Int
+									size = &l
+								}
+							}
+						}
+					}
+				}
+			}
+			for _, own := range sp.reads(p, "pseq") {
+				for _, cr := range sp.reads(p, "cseq") {
+					for _, n := range counts {
+						if size != nil && p.Proves(bounds.GE(own.Add(n).Sub(*size), cr.AddK(1))) {
+							good = true
+						}
+					}
+				}
+			}
+		case "ccond":
+			for _, own := range sp.reads(p, "cseq") {
+				for _, pr := range sp.reads(p, "pseq") {
+					if p.Proves(bounds.LE(pr, own)) {
+						good = true
+					}
+					for _, n := range counts {
+						if p.Proves(bounds.LE(pr.AddK(1), own.Add(n))) {
+							good = true
+						}
+					}
+				}
+			}
+		default:
+			return
+		}
+		k := ordinalOf(fn, p.Instr, func(in ssa.Instruction) bool {
+			c2, ok := in.(*ssa.Call)
+			return ok && ir.IsMethod(c2.Common(), "sync", "Cond", "Wait")
+		})
+		sp.record(fmt.Sprintf("%s:wait(%s)#%d:waits-only-when-it-must", fn.Name(), cond, k), "mustwait", c.P.InstrPos(p.Instr), "at the Wait the other side's cursor, as read under the lock, leaves too little room / data", fn.Name()+" can go to sleep although the other side's cursor already leaves exactly enough room (or data): nobody wakes it again when the other side has nothing more to do - the connection hangs at that boundary", good, "in context "+p.Ctx+": 'not enough' is not provable from the facts at the Wait")
 		return
 	}
 	// (6) a consuming call that reports a byte count advances the cursor by exactly that count
